@@ -8,7 +8,8 @@ TEXT = ('The decode loop (closure passed to thread::spawn by DecodeScheduler::st
         'End when the sound is Stopped, at end of data and when the audio side no longer exists; every cycle of the loop '
         'must pass a sleep, make progress (a frame pushed) or leave the loop; on error the error is queued before the flag '
         'is raised; the audio side turns the flag into Stopped + silence without reading frames; the starvation gate precedes '
-        'every read; producer/consumer orderings around reached_end. Bounded-time claims and interleavings are not decided.')
+        'every read; producer/consumer orderings around reached_end. Bounded-time claims and interleavings are not decided.'
+        ' The frame-stepping loop of the streaming sound is left only through its own guard and takes one off the fraction per iteration.')
 TECHNIQUE = 'MIR loop-cycle classification with callee summary + CFG ordering / must-pass rules'
 
 DS = 'sound::streaming::sound::decode_scheduler::DecodeScheduler::<Error>'
